@@ -222,7 +222,7 @@ pub fn gen_tree(rng: &mut Rng, opts: &TreeOpts) -> TreeSpec {
             }
         }
     }
-    let mut tree = TreeSpec { root, entries, mtime_mode: if rng.chance(1, 5) { rng.range(1, 6) as u8 } else { 0 }, meta_mode: 0 };
+    let mut tree = TreeSpec { root, entries, mtime_mode: if rng.chance(1, 5) { if rng.chance(1, 2) { rng.range(1, 6) as u8 } else { rng.range(8, 49) as u8 } } else { 0 }, meta_mode: 0 };
     // half of the trees also hold what real deployments hold (see gen/real.rs)
     if rng.chance(1, 2) {
         super::real::add_realism(rng, &mut tree);
